@@ -68,6 +68,8 @@ R = {
     "truthiness":         ("quick", ["C10"], "bounded", RB, 900),
     "defer_protocol":     ("quick", ["C08"], "bounded", RB, 900),
     "access_list":        ("quick", ["C16"], "bounded", RB, 900),
+    # ~32 min (measured 1903 s): the concatenation walker through ops::access on one fixed nested shape, index symbolic
+    "access_concat_index": ("thorough", ["C06", "C16"], "bounded", RB + "; one fixed shape (a, (a, b), b) <> (b, k = a) whose flat sequence has five items (the nested list is one item), index -1..6; loops unwound 6 times", 3600),
 }
 TABLES = {"K1_numbers": K1, "R_refuter": R}
 UNIT_CFG = {
